@@ -110,6 +110,15 @@ Theorem C15_dictionaries_sign_independent : forall i ts conv co,
 Proof. exact dictionaries_sign_independent. Qed.
 Print Assumptions C15_dictionaries_sign_independent.
 
+(* the label-freshness hypothesis has a computable sufficient condition (evaluated for every case of
+   the correspondence check): no label is assigned two different symbolic values *)
+Theorem C15_tables_check_sound : forall (A : alg) (hval jval : label -> aL A) (hcoef jcoef : cname -> aC A) sgn i g,
+  generate_struct sgn i = Ok g -> tables_check sgn i = true ->
+  (forall l, hval l = jval l) -> hcoef "1"%string = c1 A ->
+  functional_tables A hval jval hcoef jcoef g.
+Proof. exact tables_check_sound. Qed.
+Print Assumptions C15_tables_check_sound.
+
 (* ---- symbolic = dense under rate = coefficient^2 (same sign variant on both sides) ------------- *)
 Theorem C15_symbolic_eq_dense : forall (A : alg), alg_laws A ->
   forall hval jval hcoef jcoef (sgn : bool) hs js (cls : list (aC A * aM A)) rho,
